@@ -55,7 +55,7 @@ Proof. exact concat_seq_mat. Qed.
 Print Assumptions C19_concat_seq_mat.
 
 (* side conditions of MultiHeadAttention.check: what an accepted match looks like ... *)
-Theorem C19_mha_check_shapes : forall i h ub, mha_check_rewrite i = Some (h, ub) ->
+Theorem C19_mha_check_shapes : forall st i h ub, mha_check_rewrite st i = Some (h, ub) ->
   exists b s d dh, mi_query i = Some [b; s; d] /\ mi_query4 i = Some [b; s; h; dh] /\ (0 <= h)%Z
     /\ mi_key_format_bhsd i = mi_key_transposed i.
 Proof. exact mha_check_shapes. Qed.
@@ -63,8 +63,8 @@ Print Assumptions C19_mha_check_shapes.
 
 (* ... sufficient when run-time sizes are a function of the recorded dims (static or NAMED symbolic): the Reshape is the
    head split with H = the num_heads attribute, hidden = num_heads * head_size *)
-Theorem C19_mha_check_sufficient : forall i h ub (val : Z -> Z) rq rq4,
-  mha_check_rewrite i = Some (h, ub) -> consistent val ->
+Theorem C19_mha_check_sufficient : forall st i h ub (val : Z -> Z) rq rq4,
+  mha_check_rewrite st i = Some (h, ub) -> consistent val ->
   option_map (map val) (mi_query i) = Some rq -> option_map (map val) (mi_query4 i) = Some rq4 ->
   zprod rq = zprod rq4 -> (forall x, In x rq -> 0 < x)%Z ->
   exists B S Dh, rq = [B; S; h * Dh]%Z /\ rq4 = [B; S; h; Dh].
@@ -75,7 +75,7 @@ Example C19_mha_check_sufficient_satisfiable :
   let i := mk_mha_in false true true (Some [-2; -3; 8]%Z) (Some [-2; -3; 2; 4]%Z) (Some [-2; -3; 8]%Z) (Some [-2; -3; 8]%Z) None None
                      (Some (Some [1; 1; 1; -3]%Z)) in
   let val := fun d : Z => if Z.eqb d (-2) then 2%Z else if Z.eqb d (-3) then 3%Z else d in
-  mha_check_rewrite i = Some (2%Z, true) /\ consistent val
+  mha_check_rewrite true i = Some (2%Z, true) /\ consistent val
   /\ option_map (map val) (mi_query i) = Some [2; 3; 8]%Z /\ option_map (map val) (mi_query4 i) = Some [2; 3; 2; 4]%Z
   /\ zprod [2; 3; 8]%Z = zprod [2; 3; 2; 4]%Z.
 Proof. exact mha_check_sufficient_satisfiable. Qed.
@@ -84,7 +84,7 @@ Proof. exact mha_check_sufficient_satisfiable. Qed.
    SymbolicDim(None) == SymbolicDim(None), the check accepts query [?,?,8] / Reshape output [?,?,2,4] whose run-time shapes
    are [2,3,8] / [3,2,2,4] *)
 Theorem C19_mha_check_unnamed_dims_refuted : exists i rq rq4,
-  mha_check_rewrite i = Some (2%Z, false) /\ fits_codes (mi_query i) rq = true /\ fits_codes (mi_query4 i) rq4 = true
+  mha_check_rewrite false i = Some (2%Z, false) /\ fits_codes (mi_query i) rq = true /\ fits_codes (mi_query4 i) rq4 = true
   /\ zprod rq = zprod rq4 /\ firstn 2 rq4 <> firstn 2 rq.
 Proof. exact mha_check_unnamed_dims_refuted. Qed.
 Print Assumptions C19_mha_check_unnamed_dims_refuted.
@@ -130,26 +130,36 @@ Theorem C19_gqa_total_seq_len : forall P S B, 0 < S -> 0 < B -> total_seq_len (r
 Proof. exact gqa_total_seq_len. Qed.
 Print Assumptions C19_gqa_total_seq_len.
 
-Theorem C19_gqa_check_sound : forall st i h hkv il, gqa_check_rewrite st i = Some (h, hkv, il) ->
+Theorem C19_gqa_check_sound : forall st h16 i h hkv il, gqa_check_rewrite st h16 i = Some (h, hkv, il) ->
   (0 <= h)%Z /\ (0 <= hkv)%Z /\ dim_at (gi_query4 i) 2 = Some h /\ dim_at (gi_key4 i) 2 = Some hkv
   /\ gi_q_interleaved i = il /\ gi_k_interleaved i = il /\ gi_mask_has_producer i = true
   /\ (st = true -> gi_mask_is_causal_pattern i = true).
 Proof. exact gqa_check_sound. Qed.
 Print Assumptions C19_gqa_check_sound.
 
-Example C19_gqa_check_fires : gqa_check_rewrite true (gqa_witness 16 true) = Some (4, 2, 0)%Z /\ gqa_kernel_ok 4 2 16 = true.
+Example C19_gqa_check_fires : gqa_check_rewrite true true (gqa_witness 16 true) = Some (4, 2, 0)%Z /\ gqa_kernel_ok 4 2 16 = true.
 Proof. exact gqa_check_fires. Qed.
 
 (* FINDING (known, C19:gqa:head-size-not-multiple-of-16): the check never looks at the head size *)
 Theorem C19_gqa_check_head_size_refuted : exists i h hkv il dh,
-  gqa_check_rewrite true i = Some (h, hkv, il) /\ dim_at (gi_query4 i) 3 = Some dh /\ gqa_kernel_ok h hkv dh = false.
+  gqa_check_rewrite true false i = Some (h, hkv, il) /\ dim_at (gi_query4 i) 3 = Some dh /\ gqa_kernel_ok h hkv dh = false.
 Proof. exact gqa_check_head_size_refuted. Qed.
 Print Assumptions C19_gqa_check_head_size_refuted.
+(* ... the repair (head16 = true, proposed_fixes/ready/C19_01; the harness probes the variant) establishes it *)
+Theorem C19_gqa_check_head16_sufficient : forall st i h hkv il, gqa_check_rewrite st true i = Some (h, hkv, il) ->
+  exists dh, dim_at (gi_query4 i) 3 = Some dh /\ (0 <= dh)%Z /\ (dh mod 16 = 0)%Z
+    /\ ((0 < hkv)%Z -> (h mod hkv = 0)%Z -> gqa_kernel_ok h hkv dh = true).
+Proof. exact gqa_check_head16_sufficient. Qed.
+Print Assumptions C19_gqa_check_head16_sufficient.
+Theorem C19_gqa_head16_witness_refused_by_repair : gqa_check_rewrite true true (gqa_witness 8 true) = None
+  /\ gqa_check_rewrite false true (gqa_witness 24 true) = None.
+Proof. exact gqa_head16_witness_refused_by_repair. Qed.
+Print Assumptions C19_gqa_head16_witness_refused_by_repair.
 
 (* FINDING (known, C19:gqa:non-causal-mask-accepted): as written, a computed mask that is NOT the causal pattern is accepted
    (and then replaced by the operator's causal masking); the intended check refuses it *)
 Theorem C19_gqa_check_mask_refuted : exists i h hkv il,
-  gqa_check_rewrite false i = Some (h, hkv, il) /\ gi_mask_is_causal_pattern i = false /\ gqa_check_rewrite true i = None.
+  gqa_check_rewrite false false i = Some (h, hkv, il) /\ gi_mask_is_causal_pattern i = false /\ gqa_check_rewrite true false i = None.
 Proof. exact gqa_check_mask_refuted. Qed.
 Print Assumptions C19_gqa_check_mask_refuted.
 
@@ -181,15 +191,40 @@ Print Assumptions C19_mha_mask_after_ok.
 (* FINDINGS (known, C19:mha:mask-last-dim-broadcast / C19:mha:mask-batch-exceeds-query-batch): check does not compare the
    mask's last dimension with the total sequence length nor its first two with B / H *)
 Theorem C19_mha_mask_check_refuted : exists i B H S T mask ub h,
-  mi_mask i = Some (Some mask) /\ mha_check_rewrite i = Some (h, ub) /\ numpy_broadcastable mask [B; H; S; T] = true
+  mi_mask i = Some (Some mask) /\ mha_check_rewrite false i = Some (h, ub) /\ numpy_broadcastable mask [B; H; S; T] = true
   /\ mha_mask_ok B H S T (mha_mask_after ub S mask) = false.
 Proof. exact mha_mask_check_refuted. Qed.
 Print Assumptions C19_mha_mask_check_refuted.
 Theorem C19_mha_mask_batch_check_refuted : exists i B H S T mask ub h,
-  mi_mask i = Some (Some mask) /\ mha_check_rewrite i = Some (h, ub)
+  mi_mask i = Some (Some mask) /\ mha_check_rewrite false i = Some (h, ub)
   /\ mha_mask_ok B H S T (mha_mask_after ub S mask) = false /\ nth 3 mask 0%Z = T.
 Proof. exact mha_mask_batch_check_refuted. Qed.
 Print Assumptions C19_mha_mask_batch_check_refuted.
+(* the repair (strict_mask = true, proposed_fixes/ready/C19_03; the harness probes the variant).  It only adds refusals ... *)
+Theorem C19_mha_strict_refines : forall i r, mha_check_rewrite true i = Some r -> mha_check_rewrite false i = Some r.
+Proof. exact mha_strict_refines. Qed.
+Print Assumptions C19_mha_strict_refines.
+(* ... and is sufficient for the mask (static dims; T = total key/value length, = Skv without a past; the matched Add of the
+   mask to the scores [B,H,S,T] is well-formed, so the mask's last dim is T or 1 and a 2-D mask's first dim is S or 1): the fused
+   node's attention_bias has the documented shape (1|B, 1|H, S, T) *)
+Theorem C19_mha_check_strict_mask_sufficient : forall i h ub B S D Bk Skv Dk mask T,
+  mha_check_rewrite true i = Some (h, ub) ->
+  mi_query i = Some [B; S; D] -> mi_key i = Some [Bk; Skv; Dk] -> mi_mask i = Some (Some mask) ->
+  (0 < S)%Z ->
+  (last mask 0 = T \/ last mask 0 = 1)%Z ->
+  (mi_has_past i = false -> T = Skv) ->
+  (forall ms mt, mask = [ms; mt] -> ms = S \/ ms = 1%Z) ->
+  mha_mask_ok B h S T (mha_mask_after ub S mask) = true.
+Proof. exact mha_check_strict_mask_sufficient. Qed.
+Print Assumptions C19_mha_check_strict_mask_sufficient.
+Theorem C19_mha_mask_witnesses_refused_by_repair :
+  mha_check_rewrite true (mk_mha_in false true true (Some [2; 3; 8]%Z) (Some [2; 3; 2; 4]%Z) (Some [2; 3; 8]%Z) (Some [2; 3; 8]%Z) None None (Some (Some [2; 1; 3; 1]%Z))) = None
+  /\ mha_check_rewrite true (mk_mha_in false true true (Some [1; 3; 8]%Z) (Some [1; 3; 2; 4]%Z) (Some [1; 3; 8]%Z) (Some [1; 3; 8]%Z) None None (Some (Some [3; 1; 3; 3]%Z))) = None.
+Proof. exact mha_mask_witnesses_refused_by_repair. Qed.
+Print Assumptions C19_mha_mask_witnesses_refused_by_repair.
+Example C19_mha_check_strict_mask_fires :
+  mha_check_rewrite true (mk_mha_in false true true (Some [2; 3; 8]%Z) (Some [2; 3; 2; 4]%Z) (Some [2; 5; 8]%Z) (Some [2; 5; 8]%Z) None None (Some (Some [2; 1; 1; 5]%Z))) = Some (2%Z, true).
+Proof. exact mha_check_strict_mask_fires. Qed.
 
 (* ---- Attention (packed projection) ---------------------------------------------------------------------- *)
 Theorem C19_attention_packed_projection : forall (A R : Type) (dot : list A -> list A -> R) (row : list A) (wq wk wv : list (list A)),
@@ -215,16 +250,23 @@ Theorem C19_group_reshape_index : forall n g j e G cpg HW,
   (n * G + g) * (cpg * HW) + (j * HW + e) = (n * (G * cpg) + (g * cpg + j)) * HW + e.
 Proof. exact group_reshape_index. Qed.
 Print Assumptions C19_group_reshape_index.
-Theorem C19_gn_check_sound : forall i g, gn_check i = Some g ->
+Theorem C19_gn_check_sound : forall ag i g, gn_check ag i = Some g ->
   g = gn_groups i /\ length (gn_input i) = 4%nat /\ gn_adjusted i = Some [0; g; -1]%Z /\ gn_original i = Some (gn_input i)
   /\ gn_norm_weight_ones i = true /\ gn_norm_bias_zeros i = true
   /\ length (gn_weight_full i) = 3%nat /\ all_ones (tl (gn_weight_full i)) = true.
 Proof. exact gn_check_sound. Qed.
 Print Assumptions C19_gn_check_sound.
 (* FINDING (known, C19:instance_to_group_norm:affine-of-length-1): weight_full / bias_full [1,1,1] are accepted *)
-Theorem C19_gn_check_affine_refuted : exists i g, gn_check i = Some g /\ gn_affine_ok i = false.
+Theorem C19_gn_check_affine_refuted : exists i g, gn_check false i = Some g /\ gn_affine_ok i = false /\ gn_check true i = None.
 Proof. exact gn_check_affine_refuted. Qed.
 Print Assumptions C19_gn_check_affine_refuted.
+(* the repair (affine_guard = true, proposed_fixes/ready/C19_02; the harness probes the variant): gamma / beta have C elements *)
+Theorem C19_gn_check_affine_sufficient : forall i g, gn_check true i = Some g -> gn_affine_ok i = true.
+Proof. exact gn_check_affine_sufficient. Qed.
+Print Assumptions C19_gn_check_affine_sufficient.
+Example C19_gn_check_affine_fires :
+  gn_check true (mk_gn_in true true 2 [1; 4; 2; 2]%Z [4; 1; 1]%Z [4; 1; 1]%Z (Some [0; 2; -1]%Z) (Some [1; 4; 2; 2]%Z)) = Some 2%Z.
+Proof. exact gn_check_affine_fires. Qed.
 
 (* ---- 5. cos / sin cache --------------------------------------------------------------------------------- *)
 (* Gather of the cache row position_ids[b,s] = Cos/Sin of that position's frequencies, for every cache length *)
